@@ -12,6 +12,7 @@ def run(c):
   last = [l for l in p.stdout.splitlines() if l.startswith(('property', 'VIOLATION', 'KNOWN', 'UNDECIDED', 'CHECKER'))]
   return c['property_id'], p.returncode, last
 with cf.ThreadPoolExecutor(int(__import__("os").environ.get("RUN_ALL_PAR", "4"))) as ex:
-  for pid, rc, last in ex.map(run, man['checks']):
+  only = __import__('os').environ.get('RUN_ALL_ONLY', '').split()
+  for pid, rc, last in ex.map(run, [c for c in man['checks'] if not only or c['property_id'] in only]):
     print(pid, 'exit', rc, '|', ' | '.join(last)[:300])
 PY
